@@ -131,11 +131,12 @@ def run(ctx):
         for c_ in meta["ref_chains"]:
             for m_, d_ in c_["decays"]:
                 for x_ in d_:
-                    parents.setdefault(x_, set()).add(m_)
+                    # a "creator" is a decay producing x_: it is identified by the mother AND the sibling (both masses enter m_eff)
+                    parents.setdefault(x_, set()).add((m_, tuple(y_ for y_ in d_ if y_ != x_)))
         bt_slots = [k_.split("->")[0] for k_, o_ in meta["dec_opts"].items() if o_.get("below_threshold")]
         bt_class = any(len(parents.get(r_["name"], ())) > 1 for r_ in meta["resonances"] if any(r_["name"].startswith(sl.replace(tag, "")) for sl in bt_slots))
         if bt_class and not kf:
-            kf = " [below_threshold decay of a resonance with several parent candidates]"
+            kf = " [below_threshold decay of a resonance with several creating decays (parent or sibling candidates)]"
         ctx.case(cards.card_digest_key(card), nontrivial=len(ref_allowed) >= 2 or has_forbidden)
         ctx.covered("nbody", nb)
         ctx.covered("has_forbidden_candidate", has_forbidden)
@@ -260,6 +261,32 @@ def run(ctx):
             a3 = copy.deepcopy(a2)
             a3["particle"]["$include"] = fn
             alias_check("$include (yaml file)", a3)
+        # $include of a table whose entries are overridden locally (documented: the local definition wins), with the overridden
+        # quantity spelled with the same or the other alias in the two places; expanded form = the original card
+        a5 = copy.deepcopy(card["config"])
+        inc5 = {}
+        other = {"mass": "m0", "width": "g0", "P": "Par"}
+        n_over = 0
+        for k in list(a5["particle"]):
+            v = a5["particle"][k]
+            if isinstance(v, dict) and not k.startswith("$") and k != top and k not in fin:
+                base = copy.deepcopy(v)
+                local = {}
+                for key, newv in (("mass", lambda x: x + 0.05), ("width", lambda x: x * 2.0), ("P", lambda x: -x)):
+                    if key in base and rng.random() < 0.6:
+                        spell_inc = key if rng.random() < 0.5 else other[key]
+                        spell_loc = key if rng.random() < 0.5 else other[key]
+                        local[spell_loc] = base.pop(key)
+                        base[spell_inc] = newv(local[spell_loc])
+                        n_over += 1
+                inc5[k] = base
+                if local:
+                    a5["particle"][k] = local
+                else:
+                    del a5["particle"][k]
+        if n_over:
+            a5["particle"]["$include"] = "res_inc5"
+            alias_check("$include + local override", a5, share={"res_inc5": inc5})
         # candidate lists vs expanded decay lists
         a4 = copy.deepcopy(card["config"])
         slots = {k: v for k, v in a4["particle"].items() if isinstance(v, list)}
